@@ -279,7 +279,7 @@ impl Net {
         let mut reply = {
             let t = &mut st.towers[ti];
             // (a registration reply made out to somebody else waits for the next registration request)
-            if endpoint != "register" && t.script.front() == Some(&Reply::OtherUserReceipt) {
+            if endpoint != "register" && matches!(t.script.front(), Some(Reply::OtherUserReceipt) | Some(Reply::NotExtending(_))) {
                 t.default.clone()
             } else {
                 t.script.pop_front().unwrap_or_else(|| t.default.clone())
@@ -1586,6 +1586,16 @@ impl<'a> Session<'a> {
                 let served: Option<Reply> = {
                     let st = self.net.st.lock().unwrap_or_else(|e| e.into_inner());
                     st.log[log_before..].iter().find(|r| r.endpoint == "register").map(|r| r.reply.clone())
+                };
+                // A receipt that "does not extend" is relative to what the tower handed out before; a client that does not know
+                // the tower (never registered, or abandoned it since) has nothing to extend: for it this is a plain registration.
+                let unknown_before = !before.as_ref().map(|db| db.towers.contains_key(&id.to_vec())).unwrap_or(false);
+                let served = match served {
+                    Some(Reply::NotExtending(_)) if unknown_before => {
+                        self.probe("non_extending_receipt_for_a_client_that_knows_nothing");
+                        Some(Reply::Accept)
+                    }
+                    s => s,
                 };
                 let ok = r.as_ref().map(|v| v.get("result").is_some()).unwrap_or(false);
                 if served == Some(Reply::Refuse) {
